@@ -166,8 +166,12 @@ def run(chk, only=None):
         "translate/punct.py: the punctuator cases of the switch of Lexer::yylex_CORE that consist of kind assignments, yyinput() and tests yychar_ == 'c' -> decision statements "
         "(validated on every run: the extracted statement interpreter vs the compiled lexer on every first byte x every continuation of up to 2/3 bytes over the punctuator alphabet)",
         "the table coq/PunctSpec.v (6.4.6p1, digraphs p3)",
-        "NOT a theorem (decided by correspondence with the independently written tokenizer gen/reflex.py only): the case '/' (comments), identifiers, constants, literals, "
-        "comments, splices, extents, the EOF token, the directive loop of Lexer::lex"]
+        "coq/LexModel.v: Lexer::yylex (white-space loop, switch, every sub-lexer: numeric constants, identifiers and literal prefixes, quoted literals and escapes, raw strings, comments) and the token loop "
+        "of Lexer::lex (directives, expansion markers) transcribed BY HAND, with the punctuator cases taken from the regenerated programs; tied by correspondence on every run: the whole token vector "
+        "(kind, byte extent, UTF-16 extent, line flags) of the extracted model vs the compiled lexer on generated token texts, the repository's test texts and byte soup, comments discarded and kept",
+        "coq/LexSpec.v: the lexical grammar of C11 6.4 for integer constants, floating constants, identifiers, character constants, string literals, comments and white space over the BASIC source "
+        "character set (ASCII); extended characters (UTF-8) in identifiers, literals and comments, keyword recognition (C17), raw string literals and the directive loop are correspondence only",
+        "the independently written tokenizer gen/reflex.py as second oracle for texts of valid tokens"]
     chk.assumptions = ["the source text is made of valid C tokens (reference tokenizer accepts it); trigraphs are outside the property (phase 1) and '??' is excluded from the theorem"]
     terr = None
     try:
@@ -176,7 +180,7 @@ def run(chk, only=None):
         punct.generate()
     except Exception as e:
         terr = "%s: %s" % (type(e).__name__, e)
-    res = chk.prove(["Properties_C05.v"], extra_targets=["Entry_C05.vo"])
+    res = chk.prove(["Properties_C05.v", "Properties_C05_Tokens.v"], extra_targets=["Entry_C05.vo", "Entry_LEX.vo"])
     proof_ok = all(ok for ok, _ in res.values()) and terr is None
     if terr is not None:
         chk.coverage["discharged"] = 0
@@ -265,6 +269,11 @@ def run(chk, only=None):
                 parts.append(rng.choice(gens)[1](rng))
                 parts.append(rng.choice(SEPS))
             texts.append(b"".join(parts))
+    # texts that are known to be lexed differently from C11 (each is a finding of its own, identified by that text: see known_findings.json)
+    PROBES = {b"x = R\"abc\" y ;": "kind:raw-string-prefix", b"x = u8'a' ;": "kind:u8-character-constant",
+              b"s = \"" + b"a" * 70000 + b"\" ;": "byte-extent:token-longer-than-65535-bytes", b"a // n \\\\\nb\nc": "splice:after-escaped-backslash"}
+    if not only:
+        texts += list(PROBES)
     reqs, exps, kept = [], [], []
     rejected = 0
     for t in texts:
@@ -307,7 +316,46 @@ def run(chk, only=None):
         r = compare(t, e, ans, SK, NAME, kwset)
         if r:
             bad.append((t, r[0], r[1]))
-    chk.coverage["evaluations"] = len(reqs) + tv_n
+    # ---- (3) the hand-written model of yylex and Lexer::lex (coq/LexModel.v, what Properties_C05_Tokens.v is about) against the compiled lexer:
+    #          the whole token vector (kind, byte extent, UTF-16 extent, line flags) on the kept texts, on the corpus and on byte soup, comments discarded and kept
+    lex_n, bad_lex = 0, []
+    try:
+        pv.build_model("LEX")
+        kwlo, kwhi = SK["STARTof_KeywordOrPunctuatorToken"] if "STARTof_KeywordOrPunctuatorToken" in SK else 0, 0
+        sys.path.insert(0, os.path.join(pv.ROOT, "gen"))
+        import corpus as _corpus
+        ltexts = list(kept) + [t_.encode("utf-8", "replace") for _c, t_ in rng.sample(_corpus.test_snippets(), 300 if quick else 1400)]
+        soup = b"(){}[];,*&=+-<>?:.#\"'\\/ \n\tintxyTuLRUe8f01279%^|~!_$\xc3\xa9\xe4\xb8\xad\xf0\x9f\x98\x80\x80\xff"
+        pieces = [b"#", b"# ", b"expansion", b"begin", b"end", b"line", b"~", b"1", b"2,3", b"4:5", b"\n", b"\\\n", b" ", b"R\"", b"(", b")", b"x(", b")x\"", b"\"", b"u8", b"u", b"L", b"U", b"R", b"'",
+                  b"/*", b"*/", b"//", b"/**", b"/*!", b"/*!<", b"/*.", b"...", b"*", b"/", b"\\", b"a", b"0x", b"1e", b"+", b"-", b".", b"p", b"f", b"i", b"j", b"ull", b"LL", b"%:", b"%:%:", b"??", b"??(",
+                  b"\t", b"\r", b"\xc3\xa9", b"\xf0\x9f", b"int", b"08", b"0b1", b"1.5e+3L", b"0x1.8p-2f", b"'\\''", b"\"\\\"\""]
+        for _ in range(1500 if quick else 30000):
+            ltexts.append(bytes(rng.choice(soup) for _ in range(rng.randint(0, 25))))
+        for _ in range(3000 if quick else 60000):
+            ltexts.append(b"".join(rng.choice(pieces) for _ in range(rng.randint(1, 12))))
+        ltexts = [t_ for t_ in ltexts if b"\0" not in t_ and len(t_) <= 4000]
+        kwkinds = {v for k_, v in SK.items() if k_.startswith("Keyword_") or k_.startswith("OperatorName_")}
+        for keepc in (0, 1):
+            li = pv.run_impl(["lex 2:0:0:%d:2 %s" % (keepc, t_.hex() or "-") for t_ in ltexts], shards=pv.NCPU)
+            lm = pv.run_model("LEX", ["%d %s" % (keepc, " ".join(str(b_) for b_ in t_)) for t_ in ltexts], shards=pv.NCPU)
+            lex_n += len(ltexts)
+            for t_, a_, m_ in zip(ltexts, li, lm):
+                if a_.startswith(("CRASH", "EXC")):
+                    bad.append((t_, "crash", a_[:200])); continue
+                ia = []
+                for p_ in a_.split(" | ")[2:]:
+                    f_ = p_.split()
+                    ia.append((int(f_[0]), int(f_[1]), int(f_[2]), int(f_[3]), int(f_[4]), (int(f_[5]) & 7) if int(f_[0]) != 0 else 0))
+                ma = [tuple(m_[i_:i_ + 6]) for i_ in range(0, len(m_), 6)]
+                ma = [x_ if x_[0] != 0 else x_[:5] + (0,) for x_ in ma]
+                if ia != ma:
+                    k_ = next((i_ for i_ in range(min(len(ia), len(ma))) if ia[i_] != ma[i_]), min(len(ia), len(ma)))
+                    bad_lex.append((t_, keepc, ia[k_:k_ + 1], ma[k_:k_ + 1]))
+        dist["lexmodel_cases"] = lex_n
+    except Exception as e:
+        if terr is None:
+            terr = "lexer model runner: %s: %s" % (type(e).__name__, e)
+    chk.coverage["evaluations"] = len(reqs) + tv_n + lex_n
     chk.coverage["distinct_nontrivial"] = len({t for t, e in zip(kept, exps) if len(e) >= 2})
     chk.coverage["exhaustive"] = False
     chk.coverage["rule"] = ("(1) every first byte x every continuation of up to %d bytes over the punctuator alphabet + {a, space, 1, 0xc3}: extracted statement interpreter vs compiled lexer (kind, size). "
@@ -322,7 +370,9 @@ def run(chk, only=None):
     bad.sort(key=lambda x: len(x[0]))
     for t, why, det in bad:
         key = why
-        if why == "spelling" and det[1] in (b"<:", b":>", b"<%", b"%>", b"%:", b"%:%:"):
+        if t in PROBES:
+            key = PROBES[t]
+        elif why == "spelling" and det[1] in (b"<:", b":>", b"<%", b"%>", b"%:", b"%:%:"):
             key = "spelling:digraph"
         elif why.startswith("kind") or why in ("byte-extent", "spelling"):
             # identify by the first offending token
@@ -335,6 +385,11 @@ def run(chk, only=None):
                    what="token sequence differs from the C11 lexical grammar's")
         if len(seen) > 10:
             break
+    if bad_lex and not bad:
+        bad_lex.sort(key=lambda x: len(x[0]))
+        t_, keepc, ia_, ma_ = bad_lex[0]
+        chk.report("lexer-model-correspondence", {"unchecked": "coq/LexModel.v (the model Properties_C05_Tokens.v is about) vs the compiled Lexer::lex", "text_hex": t_.hex(), "text": t_.decode("latin-1"),
+                                                  "comments_kept": keepc, "implementation_token": str(ia_), "model_token": str(ma_), "count": len(bad_lex)}, found=False)
     if bad_tv and not bad:
         m, a, got = bad_tv[0]
         chk.report("translation-validation", {"unchecked": "translate/punct.py statements vs compiled yylex_CORE", "bytes": list(m), "model": a, "implementation": str(got), "count": len(bad_tv)}, found=False)
